@@ -13,7 +13,7 @@ import (
 func init() {
 	register(&propDef{
 		ID:          "C16",
-		Explanation: "Render equality between watch mode and a fresh build is not decided. Decides writer/reader agreement of the development text-file protocol and the coverage of the recompilation key: R1 every literal the generator can collect is a valid interpreted-string body without a raw newline (GEM, all literal emissions) — needed both for the Go file and for the one-literal-per-line text file; R2 (a) the separator constant the command joins the literals with equals the one both readers split with, (b) the emitted literal index is the 1-based position of the literal in the collected list (counter incremented, literal appended and index emitted in the same step) and the readers index [index-1] after an `index > len` rejection, (c) the literal is emitted between double quotes and the readers unquote \"<line>\", (d) writer and reader compute the text-file name with the same function; R3 the recompilation key (HasChanged) compares every generator option that changes emitted Go, the literal count and the expression list element-wise, and covers the kind of sink an expression is emitted into; R4 within one debounce window of the watch loop the `needs recompilation` and `text updated` flags are accumulated (||) over all events, never overwritten by the last one. NOT decided: file-system timing of the 100 ms cache, equality of rendered bytes.",
+		Explanation: "Render equality between watch mode and a fresh build is not decided. Decides writer/reader agreement of the development text-file protocol and the coverage of the recompilation key: R1 every literal the generator can collect is a valid interpreted-string body without a raw newline (GEM, all literal emissions) — needed both for the Go file and for the one-literal-per-line text file; R2 (a) the separator constant the command joins the literals with equals the one both readers split with, (b) the emitted literal index is the 1-based position of the literal in the collected list (counter incremented, literal appended and index emitted in the same step) and the readers index [index-1] after an `index > len` rejection, (c) the literal is emitted between double quotes and the readers unquote \"<line>\", (d) writer and reader compute the text-file name with the same function; R3 the recompilation key (HasChanged) compares every generator option that changes emitted Go, the literal count and the expression list element-wise, and covers the kind of sink an expression is emitted into; R4 within one debounce window of the watch loop the `needs recompilation` and `text updated` flags are accumulated (||) over all events, never overwritten by the last one. R5 each `has this output changed` hash is sha256 of the very value that is written under that name; R6 (= C07.R1) every written Go expression is registered with the source map unconditionally — HasChanged compares the registered expression list, so a skipped registration hides a change that needs recompilation. NOT decided: file-system timing of the 100 ms cache, equality of rendered bytes.",
 		Assumptions: []string{"strconv.Unquote inverts the generator's escapeQuotes (strconv.Quote without the outer quotes)"},
 		Trusted:     []string{"go/types", "go/parser", "x/tools go/packages", "strconv"},
 		Run:         runC16,
@@ -22,6 +22,8 @@ func init() {
 
 func runC16(c *Ctx) {
 	c.load(".", "./runtime", "./generator", "./cmd/templ/generatecmd", "./parser/v2")
+	hashedBytesAreWrittenBytes(c, "C16.R5")
+	gMap(c, "C16.R6")
 	gLit(c, "C16.R1")
 
 	// R2 (a): separators ---------------------------------------------------------------
@@ -505,4 +507,99 @@ func elementwiseInHelper(c *Ctx, p *packages.Package, hc *ast.FuncDecl) (found b
 		return true
 	})
 	return
+}
+
+// hashedBytesAreWrittenBytes: C16.R5 — the watch-mode handler decides "this output file changed" by a hash; the hash
+// must be taken over exactly the bytes that are then written. If the hash is computed from a different rendering of
+// the data (the literals concatenated without their separator), two different files can have one hash: the text file is
+// not rewritten, no reload is sent, and the running program keeps pairing its literal indices with the old text.
+func hashedBytesAreWrittenBytes(c *Ctx, rule string) {
+	p := c.pkg("cmd/templ/generatecmd")
+	info := p.TypesInfo
+	n := 0
+	rootObj := func(e ast.Expr) types.Object {
+		for {
+			switch x := ast.Unparen(e).(type) {
+			case *ast.CallExpr:
+				if len(x.Args) == 1 {
+					if tv, ok := info.Types[x.Fun]; ok && tv.IsType() {
+						e = x.Args[0]
+						continue
+					}
+				}
+				return nil
+			case *ast.Ident:
+				return info.ObjectOf(x)
+			default:
+				return nil
+			}
+		}
+	}
+	for _, fd := range allFuncDecls(p) {
+		ast.Inspect(fd.Body, func(x ast.Node) bool {
+			is, ok := x.(*ast.IfStmt)
+			if !ok {
+				return true
+			}
+			call, ok := ast.Unparen(is.Cond).(*ast.CallExpr)
+			if !ok || len(call.Args) != 2 {
+				return true
+			}
+			fn := calleeOf(info, call)
+			if fn == nil || fn.Name() != "UpsertHash" {
+				return true
+			}
+			n++
+			nameObj := rootObj(call.Args[0])
+			hashObj := rootObj(call.Args[1])
+			// what was hashed
+			var hashed types.Object
+			how := ""
+			ast.Inspect(fd.Body, func(y ast.Node) bool {
+				as, ok := y.(*ast.AssignStmt)
+				if !ok || len(as.Lhs) != 1 || len(as.Rhs) != 1 {
+					return true
+				}
+				if lid, ok := as.Lhs[0].(*ast.Ident); !ok || info.ObjectOf(lid) != hashObj {
+					return true
+				}
+				if hc, ok := as.Rhs[0].(*ast.CallExpr); ok && len(hc.Args) == 1 {
+					if hf := calleeOf(info, hc); hf != nil && strings.HasPrefix(fullName(hf), "crypto/sha256.Sum") {
+						hashed = rootObj(hc.Args[0])
+						how = types.ExprString(hc.Args[0])
+					}
+				}
+				return true
+			})
+			// what is written under the same name inside the branch
+			var written types.Object
+			wrote := ""
+			ast.Inspect(is.Body, func(y ast.Node) bool {
+				wc, ok := y.(*ast.CallExpr)
+				if !ok || len(wc.Args) < 2 {
+					return true
+				}
+				if rootObj(wc.Args[0]) != nameObj || nameObj == nil {
+					return true
+				}
+				written = rootObj(wc.Args[1])
+				wrote = types.ExprString(wc.Args[1])
+				return true
+			})
+			why := ""
+			switch {
+			case hashed == nil:
+				why = "the hash (" + types.ExprString(call.Args[1]) + ") is not sha256.Sum256 of a single value (it is assembled piecewise, so its input is not the byte sequence that gets written)"
+			case written == nil:
+				why = "no write of " + types.ExprString(call.Args[0]) + " was found in the `changed` branch"
+			case hashed != written:
+				why = "the hash is taken over " + how + " but " + wrote + " is written"
+			}
+			c.check(why == "", rule, fmt.Sprintf("%s|UpsertHash(%s)|hash-of-the-written-bytes", funcKey(p, fd), types.ExprString(call.Args[0])), c.pos(is.Pos()), "sha256 of "+how+", and the same value is written",
+				fmt.Sprintf("%s: %s. Two different contents can then share a hash (moving a literal boundary: `<p>EUR{ t }</p>` → `<p>{ t }EUR</p>` concatenates to the same text), the file is not rewritten, no reload is sent and the running program renders the old layout", fd.Name.Name, why))
+			return true
+		})
+	}
+	c.count("upsert_hash_sites", n)
+	c.floor(rule, 2)
 }
